@@ -9,7 +9,7 @@
 //	{"kind":"flow",  "items":[{"name":"f1","m":[],"h":..,"p":..},...],"reqs":[...]}     filter tree level
 //	{"kind":"engine","items":[...],"reqs":[...]}                                       loaded stream engine
 //
-// a request may carry "ts":true - its URL text then ends with an extra "/"
+// a request may carry "var": "ts" (URL text ends with an extra "/"), "uc" (host in upper case), "dot" ("." after the host)
 //
 // For every group the REAL code produces the managed-endpoint expressions
 //
@@ -69,17 +69,33 @@ type Item struct {
 }
 
 type Req struct {
-	M  string   `json:"m"`
-	H  []string `json:"h"`
-	P  []string `json:"p"`
-	TS bool     `json:"ts"` // the URL text ends with an extra "/"
+	M   string   `json:"m"`
+	H   []string `json:"h"`
+	P   []string `json:"p"`
+	Var string   `json:"var"` // spelling of the URL text: "" canonical, "ts" extra trailing "/", "uc" host in upper case, "dot" "." after the host
 }
 
 func (rq Req) url() string {
-	if rq.TS {
+	switch rq.Var {
+	case "ts":
 		return render(rq.H, rq.P) + "/"
+	case "uc":
+		h := make([]string, len(rq.H))
+		for i, l := range rq.H {
+			h[i] = strings.ToUpper(l)
+		}
+		return render(h, rq.P)
+	case "dot":
+		s := strings.Join(rq.H, ".") + "."
+		if len(rq.P) > 0 {
+			s += "/" + strings.Join(rq.P, "/")
+		}
+		return s
+	case "":
+		return render(rq.H, rq.P)
 	}
-	return render(rq.H, rq.P)
+	vh.Die("unknown URL variant %q", rq.Var)
+	return ""
 }
 
 type Group struct {
